@@ -206,36 +206,68 @@ def run(ctx) -> None:
 
 
 def _interval_of_recoverable_heat(ctx, rh) -> None:
-    """Every value returned lies in [0, 1]: constants directly; the linear ramp on its guarded temperature interval."""
+    """Every value returned lies in [0, 1], path by path: the guards on the path bound the temperature to an interval (comparisons with
+    constants, local or module-level), the returned expression is constant or linear in the temperature and is evaluated at the ends."""
+    from gxstat.inline import module_consts
+    from gxstat.srcmodel import const_value as _cv
+    from gxstat.symflow import PathEnumerator
+    T = rh.args[0]
     consts: Dict[str, Fraction] = {}
+    for k, v in module_consts(rh.module.tree).items():
+        okc, val = _cv(v)
+        if okc and isinstance(val, (int, float)) and not isinstance(val, bool):
+            consts[k] = Fraction(repr(val))
     for st in rh.node.body:
         if isinstance(st, ast.Assign) and isinstance(st.targets[0], ast.Name) and isinstance(st.value, ast.Constant) and \
                 isinstance(st.value.value, (int, float)):
             consts[st.targets[0].id] = Fraction(repr(st.value.value))
-    asg = [s for s in ast.walk(rh.node) if isinstance(s, ast.Assign) and norm(s.targets[0]) == 'recoverable_heat']
-    ctx.floor('G3', len(asg), 3, 'RecoverableHeat branches')
-    lo_t, hi_t = consts.get('LOW_TEMP_THRESHOLD'), consts.get('HIGH_TEMP_THRESHOLD')
-    for s in asg:
-        key = f'RecoverableHeat/branch:{norm(s.value)[:40]}'
-        where = f'{rh.module.rel}:{s.lineno}'
-        v = s.value
-        if isinstance(v, ast.Name) and v.id in consts:
-            c = consts[v.id]
-            ctx.check(0 <= c <= 1, 'G3', key, where, f'plateau value {float(c)} is outside [0, 1]: producible heat could exceed available heat',
-                      fact=f'{float(c)} in [0, 1]')
-        elif isinstance(v, ast.Constant):
-            c = Fraction(repr(v.value))
-            ctx.check(0 <= c <= 1, 'G3', key, where, f'value {float(c)} outside [0, 1]')
-        else:
-            try:
-                r = Translator().tr(v)
-            except Unsupported as e:
-                raise AnalysisError(str(e))
-            ctx.require(lo_t is not None and hi_t is not None and r.d.is_const() and r.n.atoms() <= {'Twater_degC'} and
-                        r.n.degree_in({'Twater_degC'}) <= {0, 1}, f'RecoverableHeat: ramp `{norm(v)}` is not linear in the temperature')
-            slope = r.n.coefficient_of('Twater_degC').const_value()
-            icpt = r.n.t.get((), Fraction(0))
-            ends = [slope * lo_t + icpt, slope * hi_t + icpt]
-            ctx.check(all(0 <= e <= 1 for e in ends), 'G3', key, where,
-                      f'linear ramp takes values {[float(e) for e in ends]} at the ends of its interval [{float(lo_t)}, {float(hi_t)}]: outside [0, 1]',
-                      fact=f'[{float(min(ends)):.3f}, {float(max(ends)):.3f}] subset of [0, 1]')
+    ret_names = {x.id for r_ in ast.walk(rh.node) if isinstance(r_, ast.Return) and r_.value is not None for x in ast.walk(r_.value) if isinstance(x, ast.Name)}
+    paths = [p_ for p_ in PathEnumerator(rh.node.body, ret_names, fork_all=True).paths() if p_.ended == 'return' and p_.ret is not None]
+    ctx.floor('G3', len(paths), 3, 'RecoverableHeat branches')
+
+    def num(e) -> Optional[Fraction]:
+        if isinstance(e, ast.Constant) and isinstance(e.value, (int, float)) and not isinstance(e.value, bool):
+            return Fraction(repr(e.value))
+        if isinstance(e, ast.Name):
+            return consts.get(e.id)
+        return None
+    for p_ in paths:
+        lo: Optional[Fraction] = None
+        hi: Optional[Fraction] = None
+        for test, pol, _b in p_.conds:
+            inner = test.operand if isinstance(test, ast.UnaryOp) and isinstance(test.op, ast.Not) else test
+            if isinstance(inner, ast.Call) and dotted_name(inner.func) == 'isinstance':
+                continue            # a type check does not bound the number
+            ok_g = isinstance(test, ast.Compare) and len(test.ops) == 1 and isinstance(test.left, ast.Name) and test.left.id == T and \
+                num(test.comparators[0]) is not None
+            ctx.require(ok_g, f'RecoverableHeat: guard `{norm(test)}` is not a comparison of the temperature with a constant (idiom changed)')
+            c = num(test.comparators[0])
+            op = type(test.ops[0])
+            upper = (op in (ast.LtE, ast.Lt)) == pol          # T <= c holds, or T >= c fails  -> upper bound
+            ctx.require(op in (ast.LtE, ast.Lt, ast.GtE, ast.Gt), f'RecoverableHeat: guard `{norm(test)}` not an ordering comparison')
+            if upper:
+                hi = c if hi is None else min(hi, c)
+            else:
+                lo = c if lo is None else max(lo, c)
+        try:
+            r = Translator(binds=p_.ret.binds).tr(p_.ret.expr)
+        except Unsupported as e:
+            raise AnalysisError(str(e))
+        rng = f'[{float(lo) if lo is not None else "-inf"}, {float(hi) if hi is not None else "inf"}]'
+        key = f'RecoverableHeat/branch:T in {rng}'
+        where = f'{rh.module.rel}:{p_.ret.line}'
+        ctx.require(r.d.is_const() and r.n.atoms() <= {T} and r.n.degree_in({T}) <= {0, 1}, f'RecoverableHeat: `{norm(p_.ret.expr)}` is not linear in the temperature')
+        dconst = r.d.const_value()
+        slope = (r.n.coefficient_of(T).const_value() / dconst) if T in r.n.atoms() else Fraction(0)
+        icpt = r.n.t.get((), Fraction(0)) / dconst
+        if slope == 0:
+            ctx.check(0 <= icpt <= 1, 'G3', key, where, f'plateau value {float(icpt)} is outside [0, 1]: producible heat could exceed available heat',
+                      fact=f'{float(icpt)} in [0, 1]')
+            continue
+        if lo is None or hi is None:
+            ctx.bad('G3', key, where, f'the linear ramp `{r.show()}` is returned for temperatures in {rng}, an unbounded interval: it leaves [0, 1]')
+            continue
+        ends = [slope * lo + icpt, slope * hi + icpt]
+        ctx.check(all(0 <= e <= 1 for e in ends), 'G3', key, where,
+                  f'linear ramp takes values {[float(e) for e in ends]} at the ends of its interval {rng}: outside [0, 1]',
+                  fact=f'[{float(min(ends)):.3f}, {float(max(ends)):.3f}] subset of [0, 1]')
